@@ -9,6 +9,10 @@ def svd_kernel(mat, assume_full_rank=False, matching_rank=True,
 
     _, s, v = np.linalg.svd(mat)
 
+    # mat = u @ diag(s) @ v, so mat annihilates the *conjugates* of the
+    # last rows of v
+    v = np.conjugate(v)
+
     min_kernel_dim = max(mat.shape[-1] - mat.shape[-2], 0)
 
     if assume_full_rank:
